@@ -163,6 +163,10 @@ pub fn corrupt(msg: &Msg, op: u8, pos: u32, byte: u8) -> Option<Corrupted> {
     let r = msg.render();
     let pos = pos as usize;
     let hb = 0x80 | byte; // a byte >= 0x80
+    // the inserted non-ASCII text: a single high byte, or (every third time) a complete, valid UTF-8
+    // sequence - "not ASCII" is the rule, not "not UTF-8"
+    let utf8: &[&[u8]] = &[b"\xC2\xB5", b"\xC3\xA9", b"\xE2\x82\xAC", b"\xF0\x9F\x98\x80", b"\xCE\xA9\xCE\xA9"];
+    let hseq: Vec<u8> = if byte % 3 == 0 { utf8[(byte as usize / 3) % utf8.len()].to_vec() } else { vec![hb] };
     // "longer than 12": mostly 13, sometimes far longer (counters that wrap at 256 / 65536)
     let too_long: usize = match byte % 16 {
         0 => 14,
@@ -302,7 +306,7 @@ pub fn corrupt(msg: &Msg, op: u8, pos: u32, byte: u8) -> Option<Corrupted> {
                     _ => vec![],
                 };
                 part.extend_from_slice(&r.bytes[s..s + o]);
-                Some(Corrupted { bytes: splice(s + o, s + o, &[hb]), prefix: r.tokens[..ti].to_vec(), partial: Some(ETok::Mnemonic(part.into())), what: "non-ASCII byte in header", run_level: false })
+                Some(Corrupted { bytes: splice(s + o, s + o, &hseq), prefix: r.tokens[..ti].to_vec(), partial: Some(ETok::Mnemonic(part.into())), what: "non-ASCII byte in header", run_level: false })
             }
             8 => {
                 // byte >= 0x80 inside a string or an expression
@@ -313,7 +317,7 @@ pub fn corrupt(msg: &Msg, op: u8, pos: u32, byte: u8) -> Option<Corrupted> {
                     let k = c[pick(c.len())];
                     let (_, s, e) = data[k].2;
                     let o = 1 + (pos / 5) % (e - s - 1); // strictly inside the delimiters
-                    Some(Corrupted { bytes: splice(s + o, s + o, &[hb]), prefix: r.tokens[..data_tok(k)].to_vec(), partial: None, what: "non-ASCII byte in string / expression", run_level: false })
+                    Some(Corrupted { bytes: splice(s + o, s + o, &hseq), prefix: r.tokens[..data_tok(k)].to_vec(), partial: None, what: "non-ASCII byte in string / expression", run_level: false })
                 }
             }
             9 => {
@@ -323,7 +327,7 @@ pub fn corrupt(msg: &Msg, op: u8, pos: u32, byte: u8) -> Option<Corrupted> {
                 } else {
                     let k = pick(data.len());
                     let (_, s, _) = data[k].2;
-                    Some(Corrupted { bytes: splice(s, s, &[hb]), prefix: r.tokens[..data_tok(k)].to_vec(), partial: None, what: "non-ASCII byte between elements", run_level: false })
+                    Some(Corrupted { bytes: splice(s, s, &hseq), prefix: r.tokens[..data_tok(k)].to_vec(), partial: None, what: "non-ASCII byte between elements", run_level: false })
                 }
             }
             10 => {
